@@ -164,7 +164,7 @@ static long count_overlaps(const std::vector<Burst> &b) {
 template <class V>
 long vec_case(int fill, unsigned maxlen, int nthreads, int iters, unsigned seed, long &overlaps) {
   V shared;
-  for (int i = 0; i < fill; ++i) shared.emplace_back(i * 3 % 41);
+  for (int i = 0; i < fill; ++i) shared.emplace_back((i * 17 + 5) % 37);
   std::vector<V> priv(nthreads);
   const V &cs = shared;
   std::vector<Burst> bursts;
@@ -180,7 +180,7 @@ template <class S, bool FLAT>
 long set_case(int fill, unsigned maxlen, int nthreads, int iters, unsigned seed, long &overlaps) {
   S shared;
   typedef typename S::value_type T;
-  for (int i = 0; i < fill; ++i) shared.insert(T(i * 7 % 40));
+  for (int i = 0; i < fill; ++i) shared.insert(T((i * 17 + 5) % 37));  // neither ascending nor descending: the inline state keeps insertion order
   std::vector<S> priv(nthreads);
   const S &cs = shared;
   std::vector<Burst> bursts;
@@ -196,7 +196,7 @@ template <class S>
 long flat_case(int fill, unsigned maxlen, int nthreads, int iters, unsigned seed, long &overlaps) {
   S shared;
   typedef typename S::value_type T;
-  for (int i = 0; i < fill; ++i) shared.insert(T(i * 7 % 40));
+  for (int i = 0; i < fill; ++i) shared.insert(T((i * 17 + 5) % 37));  // neither ascending nor descending: the inline state keeps insertion order
   std::vector<S> priv(nthreads);
   const S &cs = shared;
   std::vector<Burst> bursts;
